@@ -133,7 +133,15 @@ async fn log_thread(
     loop {
         let e = rx.recv().await.ok_or_else(|| err_msg("dequeue"))?;
         if let Some(e) = e {
-            let mut line = format.to_string(e).context("deserializer error")?;
+            // a record the format script cannot render (it was only checked against an empty request when
+            // the configuration was loaded) must not end the log task, let alone the process: log it as JSON
+            let mut line = match format.to_string(e.clone()) {
+                Ok(line) => line,
+                Err(err) => {
+                    tracing::error!("access log format failed: {} cause: {:?}", err, err.cause);
+                    serde_json::to_string(&e).context("deserializer error")?
+                }
+            };
             line += "\r\n";
             stream
                 .write(line.as_bytes())
